@@ -437,6 +437,12 @@ impl<T: Transport, Env: UtpEnvironment> VirtualSocket<T, Env> {
                                 true,
                                 "rfc6298 5.6",
                             );
+                        } else {
+                            // The socket is full. Leave everything as the expired timer found
+                            // it: the next poll retries this very timeout. (With the rewind
+                            // kept, the FIN would go out later as if for the first time, with
+                            // neither back-off nor a count against the retransmission limit.)
+                            self.last_sent_seq_nr = our_fin_seq_nr;
                         }
                     }
                     _ => {
